@@ -624,7 +624,7 @@ pub fn c08_script(fam: &str, idx: usize, seed: u64) -> Option<(SenderScript, Kno
             let mut i = idx;
             let mut found = None;
             'o: for nak in 0..4usize {
-                for seg in [16usize, 32] {
+                for seg in [16usize, 20, 32] {
                     for n in 0..=6usize {
                         let cnt = 1usize << (n + 1);
                         if i < cnt {
@@ -657,7 +657,7 @@ pub fn c08_script(fam: &str, idx: usize, seed: u64) -> Option<(SenderScript, Kno
         }
         "orders" => {
             k.nak = nak_procs()[rng.usize(4)];
-            let seg = *rng.pick(&[16usize, 32, 64]);
+            let seg = *rng.pick(&[16usize, 20, 28, 32, 36, 44, 64, 100]);
             k.seg = seg as u16;
             let n = rng.usize(9);
             let size = if n == 0 { 0 } else { (n * seg).saturating_sub(rng.usize(seg)).max(1) };
@@ -706,7 +706,7 @@ pub fn c08_script(fam: &str, idx: usize, seed: u64) -> Option<(SenderScript, Kno
 pub fn c08_subsets_len() -> usize {
     let mut t = 0;
     for _nak in 0..4 {
-        for _seg in 0..2 {
+        for _seg in 0..3 {
             for n in 0..=6usize {
                 t += 1usize << (n + 1);
             }
@@ -1001,7 +1001,7 @@ pub fn run_c08(tier: &str, seed: u64, replay: Option<&str>) -> (Meta, Report) {
     let meta = Meta {
         property: "C08",
         level: "exploration",
-        rule: "one real receiving daemon against a scripted sender that knows exactly what it delivered. subsets = EVERY subset of {metadata, segment 0..n-1} lost, n = 0..6 segments, x 4 NAK procedures x segment sizes {16 (one request per NAK PDU: rounds split over several PDUs), 32} (complete), with 0 or 1 unanswered rounds and a duplicated EOF in every 5th case; orders = random loss subsets with arrival orders {in order, reversed, shuffled, EOF first, EOF in the middle, duplicates}, re-lost segments, 0-2 unanswered rounds, Prompt(NAK) at a random point, slow and fast pacing. The script answers a round 300 ms after its last PDU so that rounds are not cut short. distinct_nontrivial = distinct (config, size, event-order) signatures among runs in which at least one NAK was emitted.".into(),
+        rule: "one real receiving daemon against a scripted sender that knows exactly what it delivered. subsets = EVERY subset of {metadata, segment 0..n-1} lost, n = 0..6 segments, x 4 NAK procedures x segment sizes {16 (one request per NAK PDU: rounds split over several PDUs), 20 (not a multiple of the request size), 32} (complete), with 0 or 1 unanswered rounds and a duplicated EOF in every 5th case; orders = random loss subsets with arrival orders {in order, reversed, shuffled, EOF first, EOF in the middle, duplicates}, re-lost segments, 0-2 unanswered rounds, Prompt(NAK) at a random point, slow and fast pacing. The script answers a round 300 ms after its last PDU so that rounds are not cut short. distinct_nontrivial = distinct (config, size, event-order) signatures among runs in which at least one NAK was emitted.".into(),
         exhaustive: true,
         assumptions: vec!["the only size limit the configuration defines is the largest file-data PDU: header + offset + segment size (+CRC)".into(), "before EOF a request for bytes that arrived meanwhile is not judged (the statement demands exactness after EOF); it must still be well-formed".into()],
         require: vec![("c08_nak_pdus_checked".into(), 1000), ("c08_rounds_after_eof_judged".into(), 1000), ("c08_rounds_split_over_several_pdus".into(), 100), ("c08_immediate_gaps_judged".into(), 100), ("c08_round_repeats_judged".into(), 200)],
